@@ -434,6 +434,18 @@ def rule_wo_node(ctx):
     fns = [(named(ctx, 'unsync.insert_handler'), {})]
     if ctx.has_sync:
         fns.append((named(ctx, 'sync.upsert'), {}))
+    # ... and any other function of the caches that links a new access-order node without being part of those handlers (a fast path added
+    # beside `handle_insert` has the same obligation)
+    pushers = {n_ for n_ in prog.bodies if (wrapper_kind(ctx, n_) or (None, None)) == ('push', 'ao')}
+    covered = set()
+    for nid0, _ in fns:
+        covered |= prog.reachable_from([nid0]) | {nid0}
+    for n_ in sorted(prog.bodies):
+        b_ = prog.bodies[n_]
+        if b_.kind == 'closure' or n_ in covered or n_ in pushers or n_.startswith(('common::deque::', '<common::deque::')) or wrapper_kind(ctx, n_):
+            continue
+        if prog.callees(n_) & pushers:
+            fns.append((n_, {}))
     n = 0
     for nid, _ in fns:
         for p in _run(ctx, nid, inline_depth=4, loop_visits=2, inline_pred=lambda n_, b, d: False if 'handle_remove' in n_ else None):
@@ -541,7 +553,9 @@ def rule_unlink_both(ctx):
         if n_ == upd:
             return True
         if n_ not in _ho:
-            _ho[n_] = b_.kind != 'closure' and (hands_on(n_) or bool(unlink_kind(n_)))
+            # (a function that itself leads to the map write is the body of insert split off, not a hand-over helper)
+            stores_ = any('std::collections::HashMap::insert' in get_roles(ctx).ext_calls.get(x_, ()) for x_ in (prog.reachable_from([n_]) | {n_}))
+            _ho[n_] = b_.kind != 'closure' and not stores_ and (hands_on(n_) or bool(unlink_kind(n_)))
         return False if _ho[n_] else None      # the node hand-over / unlink helpers are the events looked for
     for p in _run(ctx, nid, inline_depth=3, loop_visits=2, inline_pred=_pol):
         for e in p.events:
